@@ -189,8 +189,8 @@ int main(void)
     VASSERTM(mono, "seq: pop_best returns tasks in non-increasing priority order");
     for (int j = 1; j <= NRING; j++) if (j <= m) VASSERTM(popped[HBSZ + j] + inpar[HBSZ + j] == 1, "seq: every pushed task is returned exactly once (by pop_best or to the parent)");
     for (int j = 1; j <= NRING; j++) if (j <= m && inpar[HBSZ + j]) VASSERTM(npop == 0 || prio[HBSZ + j] <= last, "seq: tasks sent to the parent are not better than any task kept");
-    w1 = (sz == HBSZ && m == NRING && NRING > HBSZ); w2 = (sz >= 2 && m == 1); w3 = (sz == 1 && m >= 2);
-#define W1 "seq: full buffer and overflow"
+    w1 = (sz == HBSZ && m == NRING); w2 = (sz >= 2 && m == 1); w3 = (sz == 1 && m >= 2);
+#define W1 "seq: largest buffer, longest ring"
 #define W2 "seq: one task in a larger buffer"
 #define W3 "seq: one slot"
 #elif OP == OP_NEW
